@@ -100,11 +100,16 @@ Fixpoint shake1_safe (ord : hord) (neg : bool) (fuel : nat) (e : expr) : bool :=
 (* whole rules: the run of shake_1 on every tree handed to it is safe; an identifier body
    optimised on its own starts with negative polarity as soon as the condition contains any
    negation (Known.body_neg of the staged trees) *)
+(* since fix D15/D20 the passes run on every ENTRY of an identifier body (Optimiser.entries) *)
+Definition entry_trees (e : expr) : list expr := match e with EGroup _ l => l | _ => [e] end.
 Definition run_safe (ord : hord) (sw : switches) (dt : detection) : bool :=
   let st := staged sw dt in
   shake1_safe ord false (shake_fuel (fst (shaken0 st))) (fst (shaken0 st)) &&
-  forallb (fun b : str * expr => shake1_safe ord (body_neg st) (shake_fuel (snd b)) (snd b))
-          (snd (shaken0 st)).
+  forallb (fun b : str * expr =>
+             forallb (fun x => let m := ok_or (shake0 (shake_fuel x) x) x in
+                               shake1_safe ord (body_neg st) (shake_fuel m) m)
+                     (entry_trees (snd b)))
+          (snd st).
 
 Definition shake_input_ok2 (ord : hord) (sw : switches) (dt : detection) : bool :=
   forallb (fun t => sh0 t && no_dneg t && shx t) (all_trees (staged sw dt)) &&
@@ -145,8 +150,22 @@ Definition matrix_input_ok3 (o : oracles) (ord : hord) (sw : switches) (dt : det
   negb (known_d17 o ord sw dt) && negb (known_d16 ord sw dt) &&
   forallb cmp_reads (all_trees pm) &&
   match_safe ord false (shake_fuel (fst pm)) (fst pm) &&
-  forallb (fun b : str * expr => match_safe ord (body_neg pm) (shake_fuel (snd b)) (snd b)) (snd pm) &&
+  forallb (fun b : str * expr =>
+             forallb (fun m => match_safe ord (body_neg pm) (shake_fuel m) m) (entry_trees (snd b)))
+          (snd pm) &&
   (sw_coalesce sw || no_match (fst pm)).
 Definition c01_scope_quant_all (o : oracles) (ord : hord) (sw : switches) (dt : detection) : bool :=
   c01_scope_nested ord (sw_without_matrix sw) dt &&
   (negb (sw_matrix sw) || (no_quant_ident (d_expr dt) && matrix_input_ok3 o ord sw dt)).
+
+
+(* ---- since fix D15/D20 (identifier bodies are optimised entry by entry) quantifiers over
+        identifiers need no exclusion any more (Properties/C01_d15.v) ---- *)
+Definition c01_scope2_noq (ord : hord) (sw : switches) (dt : detection) : bool :=
+  negb (sw_matrix sw) &&
+  (negb (sw_shake sw) || shake_input_ok2 ord sw dt).
+Definition c01_scope_nested_noq (ord : hord) (sw : switches) (dt : detection) : bool :=
+  c01_scope2_noq ord sw dt && (negb (sw_shake sw) || run_safe ord sw dt).
+Definition c01_scope_quant_all_noq (o : oracles) (ord : hord) (sw : switches) (dt : detection) : bool :=
+  c01_scope_nested_noq ord (sw_without_matrix sw) dt &&
+  (negb (sw_matrix sw) || matrix_input_ok3 o ord sw dt).
